@@ -182,7 +182,7 @@ class Gen:
     """One random program.  `hazard_free_bias`: probability of keeping later operands shallow."""
 
     def __init__(self, rng, size=8, depth=3, p_call=0.55, lazy=0.0, raising=0.06, walrus=0.06, shallow_bias=0.5,
-                 temp_names=False, frag=False):
+                 temp_names=False, frag=False, temp_hi=False):
         self.rng, self.size, self.depth = rng, size, depth
         self.p_call, self.lazy, self.raising, self.walrus = p_call, lazy, raising, walrus
         self.shallow_bias = shallow_bias
@@ -190,6 +190,7 @@ class Gen:
         self.feats = set()
         self.tmpv = 0
         self.temp_names = temp_names
+        self.temp_hi = temp_hi
         self.frag = frag      # only constructs of the fragment of C18_sem_partial
 
     # -------------------------------------------------------------- names / tags
@@ -207,6 +208,8 @@ class Gen:
     def fresh(self, ints):
         if self.temp_names and self.rng.random() < 0.5:
             self.feats.add('temp-name')
+            if self.temp_hi and self.rng.random() < 0.4:
+                return 'tmp_%d' % self.rng.choice([1000, 1004, 1007, 1010, 1100, 1999])
             return 'tmp_%d' % (1001 + self.rng.randrange(3))
         self.tmpv += 1
         return 'v%d' % self.tmpv
@@ -633,6 +636,8 @@ FIXED = [
     ('with-items', 'def f(a, b):\n    with cm(1) as x, cm(tr(2, a)) as y:\n        tr(3, x, y)\n    return 0\n'),
     ('multi-target', 'def f(a, b):\n    O[tr(1)] = O.o1[tr(2)] = a\n    return 0\n'),
     ('temp-name', 'def f(a, b):\n    tmp_1001 = a + 7\n    return tr(1, tr(2, b), tmp_1001)\n'),
+    ('temp-name-two-temps', 'def f(a, b):\n    tmp_1001 = a\n    return tr(1, tr(2, b), tr(3, tmp_1001))\n'),
+    ('second-pass', 'def f(a, b):\n    tmp_1001 = tr(1, a)\n    tmp_1002 = tr(2, b)\n    return tr(3, tr(4, tmp_1001), tr(5, tmp_1002))\n'),
     ('dropped-pending', 'def f(a, b):\n    tr(1)\n    x: int = tr(2, tr(3))\n'),
     ('plain-1', 'def f(a, b):\n    x = tr(1, a + b, k=tr(2))\n    return tr(3, x * 2, O.yy)\n'),
     ('plain-2', 'def f(a, b):\n    for v in (tr(1), tr(2, a)):\n        if v < tr(3, v):\n            O[v] = b\n    return tr(4)\n'),
